@@ -44,7 +44,7 @@ static const PropInfo kProps[] = {
      "one case = one seeded history of 1..40 allocator calls (malloc/calloc/realloc/reallocarray/free/self-test) with sizes including 0 and values near SIZE_MAX over <= 8 live handles on a manager completed from a malloc/free-only simulated backend, half of the histories with backend failures; checked call by call against a reference model and the backend ledger. distinct_nontrivial = distinct (call-kind, size-class, liveness) sequences of length >= 2",
      ""},
     {"C17", "exploration", 1000000, 12000000,
-     "one case = one seeded key/value list (code points 1..255, biased to & = + % space CR LF) composed at EVERY capacity from -1 to required+2, dissected with matching options on one of three managers and compared with the model; or a raw query string dissected, composed and dissected again; or an allocation-failure sweep of dissect/compose-malloc; plus 10 fixed INT_MAX cases on a mirror-mapped 360M-character string. distinct_nontrivial = distinct (op sequence, composed texts) with a round-trip comparison",
+     "one case = one seeded key/value list (code points 1..255, biased to & = + % space CR LF) composed at EVERY capacity from -1 to required+2, dissected with matching options on one of three managers and compared with the model; or a raw query string dissected, composed and dissected again; or an allocation-failure sweep of dissect/compose-malloc; plus 12 fixed INT_MAX cases on a mirror-mapped 405M-character string. distinct_nontrivial = distinct (op sequence, composed texts) with a round-trip comparison",
      ""},
     {"C20", "exploration", 1000000, 12000000,
      "one case = one world (two shared read-only URIs, a shared query list, 2..6 tasks each running 1..6 public calls on private outputs) executed once sequentially and once under a seeded schedule (round-robin at allocator calls / 1-3 random change points / random walk) with switches only inside library calls. distinct_nontrivial = distinct complete control-transfer sequences with more than one preemption",
